@@ -1,5 +1,79 @@
-import TypstyleModel.Model.Printer.Knot
-/-! C19 — import items are reordered only on request, and then only permuted. -/
+import TypstyleModel.Proofs.Import
+/-! C19 — import items are reordered only on request, and then only permuted.  `importOrder` is
+the order in which `convert_import_items` hands the (flattened) item nodes to the list stylist;
+it is the only place of the model that reads `reorder`. -/
 namespace Typstyle
+
+/-- T19.1: with reordering off every import keeps its source order. -/
+theorem C19_off_keeps_order (cfg : Config) (nodes : List ANode) (h : cfg.reorder = false) :
+    importOrder cfg nodes = nodes := by
+  simp [importOrder, h]
+
+/-- T19.2a: whatever the setting, the items handed to the printer are a permutation of the
+source's items — nothing is added, dropped or duplicated. -/
+theorem C19_always_a_permutation (cfg : Config) (nodes : List ANode) : (importOrder cfg nodes).Perm nodes := by
+  unfold importOrder
+  split
+  · exact stableSort_perm _ _
+  · exact List.Perm.refl _
+
+/-- T19.2b: with reordering on, and no comment and no name bound twice, the items are sorted by
+their source text (code-point order = byte order of valid UTF-8). -/
+theorem C19_on_sorted (cfg : Config) (nodes : List ANode) (h : cfg.reorder = true) (hs : importSortable nodes = true) :
+    SortedBy ANode.intoText (importOrder cfg nodes) := by
+  simp only [importOrder, h, hs, Bool.and_self, if_true]
+  exact stableSort_sorted _ _
+
+/-- T19.2c: an import that contains a comment keeps its order, reordering on or off. -/
+theorem C19_comment_keeps_order (cfg : Config) (nodes : List ANode) (c : ANode) (hc : c ∈ nodes)
+    (hk : isCommentKind c.kind = true) : importOrder cfg nodes = nodes := by
+  have : importSortable nodes = false := by
+    unfold importSortable
+    have : nodes.all (fun n => !isCommentKind n.kind) = false := by
+      apply Bool.eq_false_iff.mpr
+      intro hall
+      have := List.all_eq_true.mp hall c hc
+      simp [hk] at this
+    simp [this]
+  simp [importOrder, this]
+
+theorem noDupNames_sound (nodes : List ANode) (seen : List String) (h : noDupNames nodes seen = true) :
+    (nodes.filterMap importBoundName).Nodup ∧ ∀ n ∈ nodes.filterMap importBoundName, n ∉ seen := by
+  induction nodes generalizing seen with
+  | nil => simp
+  | cons n rest ih =>
+    unfold noDupNames at h
+    cases hb : importBoundName n with
+    | none =>
+      rw [hb] at h
+      simpa [List.filterMap_cons, hb] using ih seen h
+    | some name =>
+      rw [hb] at h
+      simp only at h
+      by_cases hs : seen.contains name = true
+      · exfalso
+        have hm : name ∈ seen := by simpa using hs
+        simp [hm] at h
+      · simp only [hs, Bool.false_eq_true, if_false] at h
+        obtain ⟨h1, h2⟩ := ih (name :: seen) h
+        simp only [List.filterMap_cons, hb, List.nodup_cons, List.mem_cons, forall_eq_or_imp]
+        refine ⟨⟨?_, h1⟩, ?_, ?_⟩
+        · intro hm; exact (h2 name hm) (by simp)
+        · simpa using hs
+        · intro m hm hms; exact (h2 m hm) (by simp [hms])
+
+/-- T19.2d: an import that binds the same name twice keeps its order, reordering on or off. -/
+theorem C19_duplicate_keeps_order (cfg : Config) (nodes : List ANode)
+    (hd : ¬ (nodes.filterMap importBoundName).Nodup) : importOrder cfg nodes = nodes := by
+  have : importSortable nodes = false := by
+    unfold importSortable
+    cases h : noDupNames nodes [] with
+    | false => simp
+    | true => exact absurd (noDupNames_sound nodes [] h).1 hd
+  simp [importOrder, this]
+
+/-- Sorting an already sorted import changes nothing (a second run with reordering on is a no-op on the order). -/
+theorem C19_sorted_permutation_is_unique (cfg : Config) (nodes : List ANode) :
+    (importOrder cfg nodes).length = nodes.length := (C19_always_a_permutation cfg nodes).length_eq
 
 end Typstyle
